@@ -651,7 +651,10 @@ def op_oriented(m, rng):
 def op_trace(m, rng):
     """Mesh.trace: the selected facets as cells of a lower-dimensional mesh, with the facet numbers returned"""
     nf = m.facets.shape[1]
-    fs = np.sort(rng.choice(nf, size=int(rng.integers(1, nf + 1)), replace=False)).astype(np.int32)
+    # an explicit index array in ANY order, now and then with repeated entries: trace cell k is facet facets[k]
+    fs = rng.choice(nf, size=int(rng.integers(1, nf + 1)), replace=False).astype(np.int32)
+    if rng.random() < 0.5 and len(fs) > 1:
+        fs = np.concatenate([fs, fs[:2]])[rng.permutation(len(fs) + 2)].astype(np.int32)
     mt, fac = m.trace(fs)
     what = 'trace'
     need(np.array_equal(fac, fs), what + ':facet-map', '')
@@ -802,6 +805,7 @@ OPS = {
                   op_trace],
     'MeshTet1': [op_restrict, op_remove, op_transform, op_join, op_remove_unused, op_remove_duplicates, op_oriented,
                  op_trace],
-    'MeshHex1': [op_restrict, op_remove, op_transform, op_join, op_to_meshtet, op_remove_unused, op_remove_duplicates],
+    'MeshHex1': [op_restrict, op_remove, op_transform, op_join, op_to_meshtet, op_remove_unused, op_remove_duplicates,
+                 op_trace],
     'MeshWedge1': [op_to_meshtet],
 }
